@@ -90,7 +90,7 @@ func checkC07(c *Ctx) {
 			r.Unk("C07.1", "ingestRegistration: anchors", f.Pos(), fnName(f), "AddRegistration / PhantomIsLive / ParseOrResolveBlocklisted / ValidateRegistration not all found")
 		} else {
 			add, probe := addL.site(), probeL.site()
-						guardPath := guardL.toRoot(pathOf(guardL.value()))
+			guardPath := guardL.toRoot(pathOf(guardL.value()))
 			probePath := probeL.toRoot(pathOf(probeL.value()))
 			guarded := func(_ *ssa.Function, in ssa.Instruction, atoms ...Atom) bool {
 				switch in {
